@@ -78,5 +78,27 @@ def gen_ops(rng, tier, ctx=None):
         yield "mpq_cmp_si %s %s %s %x" % (hx(a[0]), hx(a[1]), hx(ns), d)
         yield "mpq_cmp_si %s %s %s %x" % (hx(-a[0]), hx(a[1]), hx(ns), d)
 
+    # mpq_get_d: truncation to 53 bits, binade boundaries, overflow to infinity, denormals, underflow to 0
+    def gd(q): return "mpq_get_d %s %s" % (hx(q[0]), hx(q[1]))
+    for k in (0, 1, 52, 53, 54, 63, 64, 65, 127, 128, 1000, 1021, 1022, 1023, 1024, 1025, 1074, 1075, 1076, 1100, 1200):
+        for m in (1, 3, (1 << 53) - 1, (1 << 53) + 1, (1 << 54) - 1, (1 << 64) - 1, (1 << 64) + 1, (1 << 100) - 1):
+            for s in (1, -1):
+                yield gd(canon(s * m << k, 1)); yield gd(canon(s * m, 1 << k)); yield gd(canon(s * m << k, 3)); yield gd(canon(s * m, 3 << k))
+    yield gd((0, 1))
+    for _ in range(1500 * N):
+        r = rng.random()
+        if r < 0.3: q = rand_q(rng, tier)
+        elif r < 0.6:                                          # exact doubles and one-ulp-ish neighbours
+            m = rng.getrandbits(53) | (1 << 52); e = rng.randrange(-1130, 1030)
+            extra = rng.choice([0, 0, 1, -1, rng.getrandbits(40)])
+            big = (m << 60) + extra
+            q = canon(sgn(rng, big) << max(e, 0), 1 << (60 + max(-e, 0)))
+        elif r < 0.8:                                          # n/d with quotient near a power of two
+            d = pos(rng, rng.randrange(1, 5)); k = rng.randrange(0, 200)
+            q = canon(sgn(rng, (d << k) + rng.choice([-1, 0, 1])), d) if rng.random() < 0.5 else canon(sgn(rng, d), (d << k) + rng.choice([-1, 0, 1]))
+        else:                                                  # limb-size differences driving zeros/chop
+            q = canon(sgn(rng, pos(rng, rng.randrange(1, 9), "uniform")), pos(rng, rng.randrange(1, 9), "uniform"))
+        yield gd(q)
+
 def nontrivial(line):
     return line if line.startswith("mpq_") else None
